@@ -81,12 +81,14 @@ reader:
 			if err != nil {
 				return err
 			}
-			return ErrorCode(r.writer, newErrClientCopyFailed(desc))
+			// NOTE: the error is reported to the client once, by the command
+			// cycle which receives it from the statement.
+			return newErrClientCopyFailed(desc)
 		default:
 			// Receipt of any other non-copy message type constitutes an error that
 			// will abort the copy-in state as described above.
 			// https://www.postgresql.org/docs/current/protocol-flow.html#PROTOCOL-COPY
-			return ErrorCode(r.writer, NewErrUnimplementedMessageType(typed))
+			return NewErrUnimplementedMessageType(typed)
 		}
 	}
 }
